@@ -22,6 +22,8 @@ _SMALL = 512
 def _arr(a: np.ndarray):
     if a.dtype == object:
         return ("ndo", a.shape, _noaddr(repr(a.tolist())))
+    if a.size > 20_000_000:
+        return ("nd", a.dtype.str, a.shape, b"too large to hash")
     b = a.tobytes()
     if len(b) > _SMALL:
         b = hashlib.blake2b(b, digest_size=12).digest()
